@@ -242,7 +242,7 @@ def verify_unit(unit, tier):
         runs = list(ex.map(one, arg_sets))
     attempts = len(runs)
     # a failure must persist with a larger solver budget (guards against solver instability)
-    need_retry = any(r["fails"] or any(u[0] == "solver-budget" for u in r["undec"]) for r in runs) and not any(
+    need_retry = any(any(f["rid"] != "spec:canary" for f in r["fails"]) or any(u[0] == "solver-budget" for u in r["undec"]) for r in runs) and not any(
         any(u[0] != "solver-budget" for u in r["undec"]) for r in runs)
     if need_retry and len(arg_sets) == 1 and "--rlimit" not in arg_sets[0]:
         runs.append(one(arg_sets[0], rlimit=60))
